@@ -111,6 +111,11 @@ def programs(seed, n, syms=gen.SYMS, tids=None):
         twin(steps, "sub", {}, [lazy, "xs3"], ["xs", "xs3"], "sb3")
         twin(steps, "sub", {}, ["xs3", lazy], ["xs3", "xs"], "sb3r")
         twin(steps, "mul", {}, [lazy, lazy], ["xs", "xs"], "ml")
+        if rank >= 2:
+            pf = list(range(rank))
+            rng.shuffle(pf)
+            twin(steps, "transpose", {"axes": pf, "phase": False}, [lazy], ["xs"], "tnp")
+            twin(steps, "transpose", {"axes": pf[1:] + pf[:1], "phase": False}, [lazy], ["xs"], "tnp2")
         inputs = {"x0": x}
         inputs.update(inputs_extra)
         if rank:
